@@ -14,13 +14,15 @@ Definition new_queue (cap mtu : nat) : queue := mkQ cap mtu [] false.
 Inductive qop :=
 | QDeliver (m : qmsg)      (* Deliver / DeliverVec: never blocks *)
 | QReceive                 (* Receive with a context that gives up at once when nothing is there *)
+| QRecvCancelled (taken : bool)  (* Receive whose context is already cancelled: Go's select may take a queued
+                                    message or return the context error; which one happened is part of the history *)
 | QPurge
 | QClose
 | QLen.
 
 Inductive qout :=
 | QAccepted | QRefused
-| QGot (m : qmsg) | QErrClosed | QWouldBlock
+| QGot (m : qmsg) | QErrClosed | QWouldBlock | QCtxErr
 | QCount (n : nat)
 | QDone.
 
@@ -36,6 +38,11 @@ Definition qstep (q : queue) (o : qop) : queue * qout :=
       match q_items q with
       | m :: t => (mkQ (q_cap q) (q_mtu q) t (q_closed q), QGot m)
       | [] => (q, if q_closed q then QErrClosed else QWouldBlock)
+      end
+  | QRecvCancelled taken =>
+      match taken, q_items q with
+      | true, m :: t => (mkQ (q_cap q) (q_mtu q) t (q_closed q), QGot m)
+      | _, _ => (q, QCtxErr)           (* the call returned the context error: nothing was consumed *)
       end
   | QPurge => (mkQ (q_cap q) (q_mtu q) [] (q_closed q), QCount (length (q_items q)))
   | QClose => (mkQ (q_cap q) (q_mtu q) [] true, QDone)
@@ -58,6 +65,7 @@ Definition qhstep (q : queue) (h : qhist) (o : qop) : qhist :=
   match o, snd (qstep q o) with
   | QDeliver m, QAccepted => mkH (h_accepted h ++ [m]) (h_left h)
   | QReceive, QGot m => mkH (h_accepted h) (h_left h ++ [(m, XReceived)])
+  | QRecvCancelled _, QGot m => mkH (h_accepted h) (h_left h ++ [(m, XReceived)])
   | QPurge, _ => mkH (h_accepted h) (h_left h ++ map (fun m => (m, XPurged)) (q_items q))
   | QClose, _ => mkH (h_accepted h) (h_left h ++ map (fun m => (m, XClosed)) (q_items q))
   | _, _ => h
